@@ -207,7 +207,11 @@ fn with_nth(e: &mut Expr, n: &mut i64, f: &mut dyn FnMut(&mut Expr)) {
     }
 }
 
-const MUTATIONS: [&str; 16] = [
+const MUTATIONS: [&str; 20] = [
+    "wide-record-missing-field",
+    "wide-record-missing-field",
+    "wide-record-mismatch",
+    "several-undefined",
     "unbound-var",
     "fun-for-value",
     "string-for-value",
@@ -225,6 +229,25 @@ const MUTATIONS: [&str; 16] = [
     "if-on-fun",
     "poly-result",
 ];
+
+/// A record literal with 4..9 fields taken from a pool of names without the letters q, x, y, z;
+/// `keep` (the replaced sub-expression) becomes the value of one field.
+fn wide_record(r: u64, keep: Option<Expr>) -> Expr {
+    const POOL: [&str; 14] = ["alpha", "beta", "gamma", "delta", "epsilon", "eta", "theta", "iota", "kappa", "lambda", "mu", "nu", "omicron", "rho"];
+    let n = 4 + (r % 6) as usize;
+    let start = ((r >> 8) % 14) as usize;
+    let mut fs = Vec::new();
+    let mut keep = keep;
+    for i in 0..n {
+        let name = POOL[(start + i * (1 + ((r >> 12) % 3) as usize)) % 14];
+        if fs.iter().any(|(l, _): &(String, Expr)| l == name) {
+            continue;
+        }
+        let v = if i == 1 && keep.is_some() { keep.take().unwrap() } else { int(i as i64) };
+        fs.push((name.to_string(), v));
+    }
+    Expr::Record(fs, None)
+}
 
 fn idf() -> Expr {
     lam(&["q"], var("q"))
@@ -267,6 +290,22 @@ fn mutate(p: &mut Program, which: &str, rng: &mut Rng) -> bool {
     with_nth(&mut p.expr, &mut n, &mut |e: &mut Expr| {
         let old = std::mem::replace(e, unit());
         let (new, ok) = match w.as_str() {
+            "wide-record-missing-field" => {
+                // `{ 4..9 fields }.missing`: none of the field names shares a letter with the missing one
+                (Expr::Proj(Box::new(wide_record(r1, Some(old))), ["zzz", "xyz", "qq", "zq"][((r1 >> 20) % 4) as usize].to_string()), true)
+            }
+            "wide-record-mismatch" => {
+                // a function that needs fields the wide record does not have
+                let f = lam(&["w"], prim(PrimOp::IntAdd, Expr::Proj(Box::new(var("w")), "zzz".into()), Expr::Proj(Box::new(var("w")), "yyy".into())));
+                (app(f, vec![wide_record(r1, Some(old))]), true)
+            }
+            "several-undefined" => (
+                Expr::Record(
+                    vec![("u1".into(), var("nope_a")), ("u2".into(), old), ("u3".into(), var("nope_b")), ("u4".into(), var("nope_c")), ("u5".into(), Expr::Con("NopeD".into(), vec![]))],
+                    None,
+                ),
+                true,
+            ),
             "unbound-var" => (var(["nope", "undefined_x", "y9"][(r1 % 3) as usize]), true),
             "fun-for-value" => (idf(), true),
             "string-for-value" => (Expr::Lit(Lit::Str("s".into())), true),
@@ -340,6 +379,62 @@ const STD_TEMPLATES: [(&str, &str); 30] = [
     ("std-poly-show", "\\x -> show x"),
     ("std-poly-list", "let list = import! std.list\nlist.of []"),
     ("std-poly-map", "let { map } = import! std.functor\nmap"),
+];
+
+/// Diagnostics that ENUMERATE: several candidates, several fields, several errors, abbreviated
+/// (`...`) renderings of long types.  (group, prelude, source); seed independent.
+const WIDE5: &str = "{ alpha = 1, beta = 2, gamma = 3, delta = 4, epsilon = 5 }";
+const ENUM_TEMPLATES: [(&str, bool, &str); 44] = [
+    // --- a missing field on a record with > 3 other fields whose names tie in similarity
+    ("enum-field-missing-5", false, "let r = { alpha = 1, beta = 2, gamma = 3, delta = 4, epsilon = 5 }\nr.zzz"),
+    ("enum-field-missing-8", false, "let r = { alpha = 1, beta = \"b\", gamma = 3, delta = 4, epsilon = 5, eta = (), theta = 7, iota = 8 }\nr.xyz"),
+    ("enum-field-missing-12", false, "let r = { aa = 1, bb = 2, cc = 3, dd = 4, ee = 5, ff = 6, gg = 7, hh = 8, ii = 9, jj = 10, kk = 11, ll = 12 }\nr.zq"),
+    ("enum-field-missing-close", false, "let r = { alpha = 1, alphb = 2, alphc = 3, alphd = 4, alphe = 5 }\nr.alph"),
+    ("enum-field-missing-nested", false, "let r = { inner = { alpha = 1, beta = 2, gamma = 3, delta = 4, epsilon = 5 }, other = 1 }\nr.inner.zzz"),
+    ("enum-field-missing-lambda", false, "let f r : { alpha : Int, beta : Int, gamma : Int, delta : Int, epsilon : Int } -> Int = r.zzz\nf"),
+    ("enum-field-missing-types", false, "type A = Int\ntype B = Int\ntype C = Int\ntype D = Int\nlet r = { A, B, C, D, alpha = 1, beta = 2 }\nr.zzz"),
+    ("enum-field-missing-twice", false, "let r = { alpha = 1, beta = 2, gamma = 3, delta = 4, epsilon = 5 }\n(r.zzz, r.yyy)"),
+    ("enum-field-missing-3-control", false, "let r = { alpha = 1, beta = 2, gamma = 3 }\nr.zzz"),
+    // --- `lacks the following fields`, record against record
+    ("enum-lacks-fields-2", false, "let f r = r.zzz #Int+ r.yyy\nf { alpha = 1, beta = 2, gamma = 3, delta = 4, epsilon = 5 }"),
+    ("enum-lacks-fields-5", false, "let f r = r.alpha #Int+ r.beta #Int+ r.gamma #Int+ r.delta #Int+ r.epsilon\nf { zzz = 1 }"),
+    ("enum-lacks-annot", false, "let r : { alpha : Int, beta : Int, gamma : Int, delta : Int, epsilon : Int, zzz : Int } = { alpha = 1, beta = 2, gamma = 3, delta = 4, epsilon = 5 }\nr"),
+    ("enum-extra-annot", false, "let r : { zzz : Int } = { alpha = 1, beta = 2, gamma = 3, delta = 4, epsilon = 5, zzz = 6 }\nr"),
+    ("enum-record-pattern", false, "match { alpha = 1, beta = 2, gamma = 3, delta = 4, epsilon = 5 } with\n| { zzz } -> zzz"),
+    ("enum-record-pattern-2", false, "let { zzz, yyy } = { alpha = 1, beta = 2, gamma = 3, delta = 4, epsilon = 5 }\nzzz"),
+    ("enum-record-vs-record", false, "let f x : { alpha : Int, beta : Int, gamma : Int, delta : Int, epsilon : Int } -> Int = x.alpha\nf { eta = 1, theta = 2, iota = 3, kappa = 4, mu = 5 }"),
+    ("enum-record-field-types", false, "let f x : { alpha : Int, beta : Int, gamma : Int, delta : Int, epsilon : Int } -> Int = x.alpha\nf { alpha = \"a\", beta = \"b\", gamma = \"c\", delta = \"d\", epsilon = \"e\" }"),
+    ("enum-record-update-missing", false, "let r = { alpha = 1, beta = 2, gamma = 3, delta = 4, epsilon = 5 }\n{ zzz = 1, .. r }.yyy"),
+    // --- long types the renderer abbreviates or wraps
+    ("enum-long-record-int", false, "let r = { aa = 1, bb = 2, cc = 3, dd = 4, ee = 5, ff = 6, gg = 7, hh = 8, ii = 9, jj = 10, kk = 11, ll = 12 }\nr #Int+ 1"),
+    ("enum-long-record-call", false, "let r = { aa = 1, bb = \"2\", cc = 3, dd = (), ee = 5, ff = \\x -> x, gg = 7, hh = [1], ii = 9, jj = 'c', kk = 11, ll = 12.0 }\nr 1 2"),
+    ("enum-long-variant", false, "type V = | V0 Int | V1 String | V2 | V3 Int Int | V4 () | V5 Char | V6 Float | V7 V | V8 | V9 Int\nlet x : V = 1\nx"),
+    ("enum-long-variant-field", false, "type V = | V0 Int | V1 String | V2 | V3 Int Int | V4 () | V5 Char | V6 Float | V7 V | V8 | V9 Int\nV2.zzz"),
+    ("enum-long-function", false, "let f a b c d e g h i j k = (a, b, c, d, e, g, h, i, j, k)\nf.zzz"),
+    ("enum-many-unsolved", false, "let f a b c d e g = { a, b, c, d, e, g }\n(f 1).zzz"),
+    ("enum-many-unsolved-2", false, "\\a b c d e g h -> (a b, c d, e g h).zzz"),
+    ("enum-many-unsolved-if", false, "if (\\a b c d e g -> { a, b, c, d, e, g }) then 1 else 2"),
+    // --- several independent errors in one program: the order of the list
+    ("enum-errors-undefined-5", false, "{ a = nope1, b = nope2, c = nope3, d = nope4, e = nope5 }"),
+    ("enum-errors-mixed", false, "let a = nope1\nlet b = 1 #Int+ \"s\"\nlet c = (\\x -> x) 1 2\nlet d = { alpha = 1 }.zzz\n{ a, b, c, d, e = nope3 }"),
+    ("enum-errors-in-record", false, "{ a = 1 #Int+ \"a\", b = 2 #Int+ \"b\", c = 3 #Int+ \"c\", d = 4 #Int+ \"d\", e = 5 #Int+ \"e\", f = 6 #Int+ \"f\" }"),
+    ("enum-errors-in-rec", false, "rec let f x = g x \"a\" nope1\nrec let g x = f x 1 nope2\nrec let h x = nope3 (f x) (g x)\n{ f, g, h }"),
+    ("enum-errors-undefined-types", false, "let f x : Nope1 -> Nope2 -> Nope3 = x\nlet g y : Nope4 = y\n{ f, g }"),
+    ("enum-errors-undefined-ctors", false, "type T = | A Int | B\nmatch A 1 with\n| Nope1 x -> x\n| Nope2 -> 1\n| Nope3 y z -> y\n| B -> 2"),
+    ("enum-duplicate-fields", false, "{ alpha = 1, beta = 2, alpha = 3, beta = 4, gamma = 5, gamma = 6 }"),
+    // --- kinds
+    ("enum-kind-too-many", false, "type Opt a = | None | Some a\nlet x : Opt Int Int = None\nx"),
+    ("enum-kind-int-app", false, "let x : Int Int String = 1\nx"),
+    ("enum-kind-missing-arg", false, "type Pair a b = | P a b\ntype Bad = { x : Pair Int, y : Pair, z : Pair Int Int Int }\nlet v : Bad = { x = 1, y = 2, z = 3 }\nv"),
+    // --- implicit arguments with many candidates, library records with many fields (prelude on)
+    ("enum-std-field-list", true, "let list = import! std.list\nlist.zqx"),
+    ("enum-std-field-string", true, "let string = import! std.string\nstring.zqx 1"),
+    ("enum-std-field-map", true, "let map = import! std.map\nmap.zqx"),
+    ("enum-std-field-prelude-types", true, "let types = import! std.types\ntypes.zqx"),
+    ("enum-std-implicit-ambiguous", true, "let f x y = x + y\n(f, undefined_q + 1, undefined_r < 2, undefined_s == undefined_s)"),
+    ("enum-std-implicit-none", true, "type Foo = | Foo\n(Foo + Foo, show Foo, Foo == Foo, Foo < Foo)"),
+    ("enum-std-implicit-fun", true, "(show (\\x -> x), (\\x -> x) == (\\y -> y), (\\x -> x) + 1)"),
+    ("enum-std-many-errors", true, "let list = import! std.list\nlet a = list.zqx\nlet b = 1 + \"a\"\nlet c = nope1\nlet d = show (\\x -> x)\n{ a, b, c, d }"),
 ];
 
 /// Programs whose reported type is polymorphic (prelude off).
@@ -427,6 +522,13 @@ fn generate_inputs(seed: u64, n_total: usize, n_std: usize) -> Generated {
                 push(&mut inputs, &mut hist, "corpus", Kind::Run, prelude, text, &mut rng);
             }
         }
+    }
+    // diagnostics that enumerate (seed independent, always all of them)
+    let _ = WIDE5;
+    for (g, prelude, t) in ENUM_TEMPLATES.iter() {
+        // the type checker's message is the subject: mostly `run_expr`, a third `typecheck_str`
+        let kind = if rng.below(3) == 0 { Kind::Tc } else { Kind::Run };
+        push(&mut inputs, &mut hist, g, kind, *prelude, t.to_string(), &mut rng);
     }
     // polymorphic-type programs and standard library programs
     for (g, t) in POLY_TEMPLATES.iter() {
@@ -521,9 +623,14 @@ struct Obs {
     ty: String,
     diag: String,
     display: String,
+    /// empty when rendering the SAME error value a second (and third) time in the same process
+    /// (`emit_string` and `Display`) gives the same text; otherwise what differed and both texts
+    rerender: String,
 }
 
-const COMPONENTS: [&str; 4] = ["value", "type", "diag", "display"];
+const COMPONENTS: [&str; 5] = ["value", "type", "diag", "display", "rerender"];
+/// separates the two renderings inside `Obs::rerender`
+const RERENDER_SEP: &str = "\n=====second-rendering=====\n";
 
 impl Obs {
     fn get(&self, c: &str) -> &str {
@@ -531,17 +638,18 @@ impl Obs {
             "value" => &self.value,
             "type" => &self.ty,
             "diag" => &self.diag,
+            "rerender" => &self.rerender,
             _ => &self.display,
         }
     }
     fn to_fields(&self) -> String {
-        format!("{}\t{}\t{}\t{}", hex(&self.value), hex(&self.ty), hex(&self.diag), hex(&self.display))
+        format!("{}\t{}\t{}\t{}\t{}", hex(&self.value), hex(&self.ty), hex(&self.diag), hex(&self.display), hex(&self.rerender))
     }
     fn from_fields(p: &[&str]) -> Obs {
-        Obs { value: unhex(p[0]), ty: unhex(p[1]), diag: unhex(p[2]), display: unhex(p[3]) }
+        Obs { value: unhex(p[0]), ty: unhex(p[1]), diag: unhex(p[2]), display: unhex(p[3]), rerender: unhex(p[4]) }
     }
     fn to_json(&self) -> serde_json::Value {
-        serde_json::json!({"value": self.value, "type": self.ty, "diag": self.diag, "display": self.display})
+        serde_json::json!({"value": self.value, "type": self.ty, "diag": self.diag, "display": self.display, "rerender": self.rerender})
     }
 }
 
@@ -568,11 +676,25 @@ fn err_obs(e: &gluon::Error, log: &[i64]) -> Obs {
         }
         _ => Outcome::Err(k.clone(), log.to_vec()).canonical(),
     };
-    let diag = match e.emit_string() {
+    let emit = |e: &gluon::Error| match e.emit_string() {
         Ok(s) => s,
         Err(x) => format!("<emit_string failed: {}>", x),
     };
-    Obs { value, ty: String::new(), diag, display: format!("{}", e) }
+    let diag = emit(e);
+    let display = format!("{}", e);
+    // the same error value rendered again, twice, in the same process
+    let mut rerender = String::new();
+    for _ in 0..2 {
+        let d2 = emit(e);
+        if d2 != diag && rerender.is_empty() {
+            rerender = format!("emit_string{}{}{}{}", RERENDER_SEP, diag, RERENDER_SEP, d2);
+        }
+        let p2 = format!("{}", e);
+        if p2 != display && rerender.is_empty() {
+            rerender = format!("Display{}{}{}{}", RERENDER_SEP, display, RERENDER_SEP, p2);
+        }
+    }
+    Obs { value, ty: String::new(), diag, display, rerender }
 }
 
 /// One evaluation of `inp` on `vm` (which must have the input's prelude setting).
@@ -583,7 +705,7 @@ fn observe(vm: &RootedThread, inp: &Input) -> Obs {
             Ok((v, ty)) => {
                 let val = mg::value::canon(vm, v.get_variant());
                 let log = mg::run::log_take();
-                Obs { value: format!("(val {} {})", val, log_str(&log)), ty: format!("{}", ty), diag: String::new(), display: String::new() }
+                Obs { value: format!("(val {} {})", val, log_str(&log)), ty: format!("{}", ty), diag: String::new(), display: String::new(), rerender: String::new() }
             }
             Err(e) => {
                 let log = mg::run::log_take();
@@ -591,7 +713,7 @@ fn observe(vm: &RootedThread, inp: &Input) -> Obs {
             }
         },
         Kind::Tc => match vm.typecheck_str(&inp.name, &inp.src, None) {
-            Ok((_e, ty)) => Obs { value: "(typechecked)".into(), ty: format!("{}", ty), diag: String::new(), display: String::new() },
+            Ok((_e, ty)) => Obs { value: "(typechecked)".into(), ty: format!("{}", ty), diag: String::new(), display: String::new(), rerender: String::new() },
             Err(e) => err_obs(&e, &[]),
         },
     }));
@@ -606,7 +728,7 @@ fn observe(vm: &RootedThread, inp: &Input) -> Obs {
                 "panic".to_string()
             };
             mg::run::log_clear();
-            Obs { value: "(err hostpanic)".into(), ty: String::new(), diag: format!("host panic: {}", msg), display: String::new() }
+            Obs { value: "(err hostpanic)".into(), ty: String::new(), diag: format!("host panic: {}", msg), display: String::new(), rerender: String::new() }
         }
     }
 }
@@ -708,11 +830,11 @@ fn run_history(spec: &str, inputs: &[Input], emit: &mut dyn FnMut(&str, &Input, 
                         .spawn(move || observe(&vm2, &inp2))
                         .expect("spawn")
                         .join()
-                        .unwrap_or(Obs { value: "(err thread-died)".into(), ty: String::new(), diag: String::new(), display: String::new() })
+                        .unwrap_or(Obs { value: "(err thread-died)".into(), ty: String::new(), diag: String::new(), display: String::new(), rerender: String::new() })
                 } else {
                     match vm.new_thread() {
                         Ok(t) => observe(&t, inp),
-                        Err(e) => Obs { value: "(err new_thread)".into(), ty: String::new(), diag: format!("{}", e), display: String::new() },
+                        Err(e) => Obs { value: "(err new_thread)".into(), ty: String::new(), diag: format!("{}", e), display: String::new(), rerender: String::new() },
                     }
                 };
                 emit("", inp, &o);
@@ -974,7 +1096,7 @@ fn read_obs(path: &Path) -> Vec<(usize, String, Obs)> {
     if let Ok(text) = std::fs::read_to_string(path) {
         for l in text.lines() {
             let p: Vec<&str> = l.split('\t').collect();
-            if p.len() == 6 {
+            if p.len() == 7 {
                 if let Ok(id) = p[0].parse() {
                     v.push((id, p[1].to_string(), Obs::from_fields(&p[2..])));
                 }
@@ -1035,7 +1157,7 @@ fn diff_class(a: &str, b: &str) -> String {
     let is_tyvar = |t: &str| {
         let letters: String = t.chars().take_while(|c| c.is_ascii_lowercase()).collect();
         let rest = &t[letters.len()..];
-        !letters.is_empty() && letters.len() <= 2 && rest.chars().all(|c| c.is_ascii_digit())
+        letters.len() == 1 && rest.chars().all(|c| c.is_ascii_digit())
     };
     if ta.len() == tb.len() {
         let pairs: Vec<(&String, &String)> = ta.iter().zip(tb.iter()).filter(|(x, y)| x != y).collect();
@@ -1057,6 +1179,18 @@ fn diff_class(a: &str, b: &str) -> String {
             let strip = |t: &str| t.trim_end_matches(|c: char| c.is_ascii_digit()).to_string();
             if pairs.iter().all(|(x, y)| strip(x) == strip(y)) {
                 return "identifier-numeric-suffix".to_string();
+            }
+        }
+    }
+    // the lines that differ are renderings of a type abbreviated with `...` (the renderer keeps only
+    // some fields / constructors: check/src/unify_type.rs similarity_filter, base/src/types Filter)
+    {
+        let la: Vec<&str> = a.lines().collect();
+        let lb: Vec<&str> = b.lines().collect();
+        if la.len() == lb.len() && !la.is_empty() {
+            let d: Vec<(&&str, &&str)> = la.iter().zip(lb.iter()).filter(|(x, y)| x != y).collect();
+            if !d.is_empty() && d.iter().all(|(x, y)| x.contains("...") && y.contains("...")) {
+                return "fields-shown-in-abbreviated-type".to_string();
             }
         }
     }
@@ -1110,7 +1244,7 @@ impl<'a> Repro<'a> {
         let res = if ok {
             std::fs::read_to_string(&o).ok().and_then(|t| {
                 let p: Vec<&str> = t.trim_end_matches('\n').split('\t').collect();
-                if p.len() == 4 { Some(Obs::from_fields(&p)) } else { None }
+                if p.len() == 5 { Some(Obs::from_fields(&p)) } else { None }
             })
         } else {
             None
@@ -1410,7 +1544,14 @@ fn replay_main(path: &str) {
         println!("round {}:", round);
         match (&oa, &ob) {
             (Some(x), Some(y)) => {
-                for c in COMPONENTS {
+                for (h, o) in [("A", x), ("B", y)] {
+                    if !o.rerender.is_empty() {
+                        differs = true;
+                        println!("  history {}: the same error value rendered twice gives different texts:\n{}", h, o.rerender);
+                    }
+                }
+                for c in &COMPONENTS[..4] {
+                    let c = *c;
                     if x.get(c) != y.get(c) {
                         differs = true;
                         println!("  {} differs\n  --- history A ({} evaluations)\n{}\n  --- history B ({} evaluations)\n{}", c, a.len(), x.get(c), b.len(), y.get(c));
@@ -1608,6 +1749,9 @@ fn real_main() {
     let mut differing: Vec<(usize, String, String, String)> = Vec::new(); // (input, component, ref history, deviating history)
     let mut n_compared = 0u64;
     let mut incomplete = 0u64;
+    // observations in which the SAME error value rendered differently twice in one process
+    let mut rerender_hits: Vec<(usize, String)> = Vec::new();
+    let mut n_rerender = 0u64;
     for (id, obs) in &table {
         if obs.len() < specs.len() {
             incomplete += 1;
@@ -1617,7 +1761,14 @@ fn real_main() {
         let mut seen_comp = BTreeSet::new();
         for (l, o) in obs {
             n_compared += 1;
-            for c in COMPONENTS {
+            if !o.rerender.is_empty() && rerender_hits.len() < 50 && !rerender_hits.iter().any(|(i, _): &(usize, String)| i == id) {
+                rerender_hits.push((*id, l.clone()));
+            }
+            if !o.rerender.is_empty() {
+                n_rerender += 1;
+            }
+            for c in &COMPONENTS[..4] {
+                let c = *c;
                 if o.get(c) != rf.1.get(c) && seen_comp.insert(c) {
                     differing.push((*id, c.to_string(), rf.0.clone(), l.clone()));
                 }
@@ -1753,6 +1904,35 @@ fn real_main() {
         }));
     }
 
+    for (x, label) in &rerender_hits {
+        let inp = by_id[x];
+        let o = &table[x].iter().find(|(l, _)| l == label).unwrap().1;
+        let parts: Vec<&str> = o.rerender.split(RERENDER_SEP).collect();
+        let (what, first, second) = (parts.first().copied().unwrap_or(""), parts.get(1).copied().unwrap_or(""), parts.get(2).copied().unwrap_or(""));
+        let class = diff_class(first, second);
+        let key = format!("nondeterministic-diagnostic:{}", class);
+        *class_total.entry(key.clone()).or_insert(0) += 1;
+        let cnt = per_class.entry(format!("rerender|{}", key)).or_insert(0);
+        if *cnt >= 2 {
+            continue;
+        }
+        *cnt += 1;
+        let one = vec![("vm".to_string(), inp.clone())];
+        findings.push(serde_json::json!({
+            "key": key,
+            "class": class,
+            "component": format!("{} of one error value, rendered twice in the same process", what),
+            "headline": headline(first),
+            "input": {"id": x, "group": inp.group, "name": inp.name, "kind": if inp.kind == Kind::Run {"run"} else {"tc"}, "prelude": inp.prelude, "source": inp.src},
+            "reference_history": format!("{} (first rendering)", label),
+            "deviating_history": format!("{} (second rendering of the same error value)", label),
+            "note": "the same error value renders to different texts in one process: the rendering itself is not a function of the error",
+            "history_a": seq_to_json(&one),
+            "history_b": seq_to_json(&one),
+            "text_a": first,
+            "text_b": second,
+        }));
+    }
     for (x, label, reason, stem) in crash_findings.iter().take(5) {
         let inp = by_id[x];
         let trace = read_trace(&args.out.join(format!("trace-{}.tsv", stem)));
@@ -1880,6 +2060,7 @@ fn real_main() {
             "excluded_inputs": excluded,
             "wall_filter_s": t_filter,
             "differing": differing.len(),
+            "rerender_differences": n_rerender,
             "class_totals": class_total,
             "findings": findings,
             "probes": repro.probes,
